@@ -153,18 +153,29 @@ theorem advance_never_runs_out_of_fuel (fuel : Nat) (d : DState) (r : Nat) (q : 
     next u hsel =>
       obtain ⟨s1, q1, h1, hc1, hq1, hp1, hpar1, hr1, hcf1, hho1⟩ :=
         dispatch_ok u.2 hq hpc (dynOk_static hdyn hcs (firstAvailableFrom_mem hsel))
-      simp only [h1]
       split
-      · obtain ⟨s2, h2, hc2, hd2⟩ := endAttempt_fail_ok (out := .dialRefused) hq1 hp1 rfl
-        simp only [h2]
+      · -- the dial info cannot be filled in: one step, the request returns
+        have hb : step d.s (.dialInfoFails r) = some { d.s with reqs := d.s.reqs.set r { q with pc := .done } } := by
+          show stepDialInfoFails d.s r = some _
+          unfold stepDialInfoFails
+          rw [hq]
+          simp only []
+          split
+          · rfl
+          · simp_all
+        simp only [hb]; rfl
+      · simp only [h1]
         split
+        · obtain ⟨s2, h2, hc2, hd2⟩ := endAttempt_fail_ok (out := .dialRefused) hq1 hp1 rfl
+          simp only [h2]
+          split
+          · rfl
+          next hnd =>
+            have hnd' : isDone s2 r = false := by simpa using hnd
+            obtain ⟨q2, hq2, hp2, hpar, hcf, hr2, hlt, hho⟩ := isDone_false_start hd2 hnd'
+            exact ih { d with s := s2 } q2 hq2 hp2 ⟨cs, by simp only [hc2, hc1, hcf, hcf1]; exact hcs⟩
+              (by rw [hpar, hpar1, hho, hho1]; exact hdyn)
+              (by rw [hpar, hr2, hpar1, hr1]; rw [hpar1, hr1] at hlt; omega)
         · rfl
-        next hnd =>
-          have hnd' : isDone s2 r = false := by simpa using hnd
-          obtain ⟨q2, hq2, hp2, hpar, hcf, hr2, hlt, hho⟩ := isDone_false_start hd2 hnd'
-          exact ih { d with s := s2 } q2 hq2 hp2 ⟨cs, by simp only [hc2, hc1, hcf, hcf1]; exact hcs⟩
-            (by rw [hpar, hpar1, hho, hho1]; exact hdyn)
-            (by rw [hpar, hr2, hpar1, hr1]; rw [hpar1, hr1] at hlt; omega)
-      · rfl
 
 end CaddyModel.C09
